@@ -166,6 +166,9 @@ class TLSPeer:
         self.auto_close_reply = False  # answer the other side's close_notify with ours + FIN
         self._replied = False
         self.wire_out = bytearray()  # every cipher-text byte this peer produced (content differs between runs!)
+        # optional: when set, cipher-text this peer produces is handed to sink(data) instead of being written to the
+        # link (the harness then decides when it becomes visible, e.g. vsim.harness.AlignedFeed on a manual-mode pipe)
+        self.sink: Callable[[bytes], None] | None = None
         if not server_side:
             self.engine.step()
             self._collect()
@@ -210,6 +213,12 @@ class TLSPeer:
 
     def _flush(self) -> None:
         if self.closed or not self.out_pending:
+            return
+        if self.sink is not None:
+            data = bytes(self.out_pending)
+            self.out_pending.clear()
+            self.world.log("tlspeer_sink", self.sock.label, len(data))
+            self.sink(data)
             return
         if self.capacity_bound:
             n = min(self.tx.room(), len(self.out_pending))
